@@ -625,6 +625,7 @@ def _binop(op, l, r) -> tuple:
                 except Exception:
                     pass
             out.append(x)
+        out = _merge_zero_pack(out)
         if len(out) == 1:
             return out[0]
         return ("add", tuple(out))
@@ -644,6 +645,65 @@ def _binop(op, l, r) -> tuple:
         except Exception:
             pass
     return ("binop", name, l, r)
+
+
+_ZERO_FIELD = {1: "B", 2: "H", 4: "L", 8: "Q"}
+
+
+def _merge_zero_pack(parts: list) -> list:
+    """1/2/4/8 constant zero bytes next to `Struct(<explicit byte order>...).pack(..)` are one more zero-valued field of that
+    pack: b"\0\0\0\0" + Struct("<Q").pack(c) is read as Struct("<LQ").pack(0, c) - ONE spelling of "zero bytes, then the
+    counter", the same one the pad-code canonicalisation produces."""
+
+    def is_pack(t):
+        return (t[0] == "call" and t[1][0] == "const" and isinstance(t[1][1], StructMethod) and t[1][1].method == "pack" and not t[3]
+                and t[1][1].struct.fmt[:1] in ("<", ">", "!", "=") and "x" not in t[1][1].struct.fmt)
+
+    def zeros(t):
+        if t[0] == "const" and isinstance(t[1], (bytes, bytearray)) and len(t[1]) in _ZERO_FIELD and not any(t[1]):
+            return len(t[1])
+        return None
+
+    out = list(parts)
+    i = 0
+    while i + 1 < len(out):
+        a, b = out[i], out[i + 1]
+        za, zb = zeros(a), zeros(b)
+        if za is not None and is_pack(b):
+            fmt = b[1][1].struct.fmt
+            out[i : i + 2] = [("call", ("const", StructMethod(StructConst(fmt[0] + _ZERO_FIELD[za] + fmt[1:]), "pack")), (("const", 0),) + tuple(b[2]), ()) + tuple(b[4:])]
+            continue
+        if zb is not None and is_pack(a):
+            fmt = a[1][1].struct.fmt
+            out[i : i + 2] = [("call", ("const", StructMethod(StructConst(fmt + _ZERO_FIELD[zb]), "pack")), tuple(a[2]) + (("const", 0),), ()) + tuple(a[4:])]
+            continue
+        i += 1
+    return out
+
+
+def fold_term(t):
+    """Python value of a term built only from constants, `+`, constant struct packers and int.to_bytes; NotConst otherwise."""
+    if t[0] == "const":
+        return t[1]
+    if t[0] == "add":
+        vals = [fold_term(x) for x in t[1]]
+        acc = vals[0]
+        for v in vals[1:]:
+            acc = acc + v
+        return acc
+    if t[0] == "call" and not t[3]:
+        fn = t[1]
+        if fn[0] == "const" and isinstance(fn[1], StructMethod) and fn[1].method == "pack":
+            import struct
+
+            return struct.pack(fn[1].struct.fmt, *[fold_term(a) for a in t[2]])
+        if fn[0] == "attr" and fn[2] == "to_bytes" and len(t[2]) == 2:
+            v, n, bo = fold_term(fn[1]), fold_term(t[2][0]), fold_term(t[2][1])
+            if isinstance(v, int) and isinstance(n, int) and bo in ("little", "big"):
+                return v.to_bytes(n, bo)
+        if fn[0] == "glob" and fn[1] in ("bytes", "bytearray") and len(t[2]) == 1:
+            return bytes(fold_term(t[2][0]))
+    raise NotConst(str(t)[:80])
 
 
 def _subst_cvars(t, m: dict):
